@@ -116,7 +116,7 @@ def c03(ctx):
         s3 = engines.oracle_replay(ctx, sparse_seed_records(16), 3, ["C03"], label="sparse3")
         engines.absorb_replay(ctx, s3)
     ctx.require_tags(summ["movekinds"], ALL_KIND_TAGS)
-    ctx.require_tags(summ["tags"], ["home-rook-captured", "promotion-captures-home-rook"])
+    ctx.require_tags(summ["tags"], ["home-rook-captured", "promotion-captures-home-rook"] + ["home-rook-captured-by-" + k for k in ("king", "queen", "rook", "bishop", "knight")])
     ctx.extra["move_kinds_applied"] = summ["movekinds"]
     b2_games(ctx, ["succ"], 40 if quick else 800, 200, 0, shards=4 if quick else 8)
     ctx.sample({"binding": "B1", "move_kinds_applied": summ["movekinds"]})
